@@ -94,3 +94,37 @@ fn next_timer_to_poll_earliest() {
     }
     std::mem::forget(slot);
 }
+
+fn any_vstate() -> VirtualSocketState {
+    match kani::any::<u8>() % 7 {
+        0 => VirtualSocketState::SynReceived,
+        1 => VirtualSocketState::SynAckSent { count: kani::any() },
+        2 => VirtualSocketState::Established,
+        3 => VirtualSocketState::FinWait1 { our_fin: SeqNr(kani::any()) },
+        4 => VirtualSocketState::FinWait2,
+        5 => VirtualSocketState::LastAck { our_fin: SeqNr(kani::any()), remote_fin: SeqNr(kani::any()) },
+        _ => VirtualSocketState::Closed,
+    }
+}
+
+//@ harness id=fin_gate.k.fin_takes_next_unused_seq_nr kind=complete props=C17 tier=quick timeout=600 text="VirtualSocket::transition_to_fin_wait_1 (real code incl. the log_if_changed! wrapper; partially initialised object: only state and seq_nr are alive): from SynReceived/SynAckSent/Established the FIN is assigned exactly the next unused sequence number seq_nr (the number following the last data segment ever numbered, not something derived from the rewindable last_sent_seq_nr) and seq_nr advances by one; in every other state nothing changes"
+#[kani::proof]
+fn fin_takes_next_unused_seq_nr() {
+    let st = any_vstate();
+    let seq: u16 = kani::any();
+    let mut slot: Box<MaybeUninit<VS>> = Box::new(MaybeUninit::uninit());
+    let p: *mut VS = slot.as_mut_ptr();
+    let (st2, seq2) = unsafe {
+        addr_of_mut!((*p).state).write(st);
+        addr_of_mut!((*p).seq_nr).write(SeqNr(seq));
+        (&mut *p).transition_to_fin_wait_1();
+        ((*p).state, (*p).seq_nr)
+    };
+    if matches!(st, VirtualSocketState::Established | VirtualSocketState::SynReceived | VirtualSocketState::SynAckSent { .. }) {
+        assert!(st2 == VirtualSocketState::FinWait1 { our_fin: SeqNr(seq) });
+        assert!(seq2 == SeqNr(seq.wrapping_add(1)));
+    } else {
+        assert!(st2 == st && seq2 == SeqNr(seq));
+    }
+    std::mem::forget(slot);
+}
